@@ -587,7 +587,7 @@ pub fn rest_of(lexer: &Lexer<'_, Sc>) -> String {
     while let Some(t) = c.next() {
         items.push(format!("{}.{}@{}", t.kind, t.tag, dspan(c.token_span())));
         guard += 1;
-        if guard > 64 { break; }
+        if guard > 2000 { break; }
     }
     format!("[{}]", items.join(","))
 }
